@@ -42,11 +42,11 @@ func run(r *mon.Report, tier string, idx int, rng *rand.Rand) {
 func init() {
 	reg.Register(&reg.Prop{
 		ID: "C15", Level: "exploration",
-		Rule: "each case = (a) one randomly populated NodePoolSpec walked by reflection (every leaf edited to two distinct values, every list/map permuted, every container nil-vs-empty) and (b,c) one generated world: catalog of 2-6 instance types, one NodePool accepted by the real CRD schema+CEL+RuntimeValidate pipeline (requirements over all eight operators incl. NotIn/Exists/Gt/Lt/Gte/Lte on custom integer/string labels, template labels/annotations/taints/startupTaints/expireAfter/terminationGracePeriod, budgets, limits, weight), 1-3 pending pods (some constraining the custom keys), real hash controller, real Schedule+Create, then for every launch choice the serialized NodeClaim permits a fresh claim is created and driven through the real lifecycle controller to launched/registered/initialized and handed to the real nodeclaim disruption controller; on launched claims the NodePool is edited (violating / benign requirement edit, hashed template field edit, reorder + non-drifting edit, hash-version scenario) and every edit is reverted. Non-trivial = at least one launched claim was judged; distinct by (pool requirement shape x stages x edit kinds exercised).",
+		Rule:  "each case = (a) one randomly populated NodePoolSpec walked by reflection (every leaf edited to two distinct values, every list/map permuted, every container nil-vs-empty) and (b,c) one generated world: catalog of 2-6 instance types, one NodePool accepted by the real CRD schema+CEL+RuntimeValidate pipeline (requirements over all eight operators incl. NotIn/Exists/Gt/Lt/Gte/Lte on custom integer/string labels, template labels/annotations/taints/startupTaints/expireAfter/terminationGracePeriod, budgets, limits, weight), 1-3 pending pods (some constraining the custom keys), real hash controller, real Schedule+Create, then for every launch choice the serialized NodeClaim permits a fresh claim is created and driven through the real lifecycle controller to launched/registered/initialized and handed to the real nodeclaim disruption controller; on launched claims the NodePool is edited (violating / benign requirement edit, hashed template field edit, reorder + non-drifting edit, hash-version scenario) and every edit is reverted. Non-trivial = at least one launched claim was judged; distinct by (pool requirement shape x stages x edit kinds exercised).",
 		Cases: cases, Run: run,
 		MinObserved: map[string]int{
 			"hash_template_leaf_edit_checks": 3000, "hash_requirements_leaf_edit_checks": 1000, "hash_nontemplate_leaf_edit_checks": 2000, "hash_permutation_checks": 1000,
-			"hash_zero_to_nonzero_checks": 3000,
+			"hash_zero_to_nonzero_checks":      3000,
 			"nodepools_rejected_by_validation": 5, "static_pool_cases": 10,
 			"fresh_claim_drift_checks": 400, "drift_subreconciler_ran": 400, "instance_type_not_found_evaluations": 100,
 			"requirement_violation_drift_checks": 300, "benign_requirement_edit_checks": 300, "template_edit_drift_checks": 300, "benign_pool_edit_checks": 300,
